@@ -674,4 +674,308 @@ Proof.
         rewrite (toks_nonleaf _ Hnl Hel), <- (path_split _ _ 0 Hr). lnorm. reflexivity.
 Qed.
 
+(* ---------------------------------------------------------------- cutting a fragment between its children *)
+Lemma seg_app {A} (a b : list A) x y :
+  seg (a ++ b) x y = seg a x (Nat.min (length a) y) ++ seg b (x - length a) (y - length a).
+Proof.
+  unfold seg. rewrite skipn_app, firstn_app, skipn_length. f_equal.
+  - destruct (Nat.le_gt_cases (length a) y) as [H|H].
+    + rewrite Nat.min_l by lia. rewrite !firstn_all2; [reflexivity|rewrite skipn_length; lia|rewrite skipn_length; lia].
+    + rewrite Nat.min_r by lia. reflexivity.
+  - f_equal. lia.
+Qed.
+
+Lemma seg_nil {A} (l : list A) x y : y <= x -> seg l x y = [].
+Proof. intros H. unfold seg. replace (y - x) with 0 by lia. reflexivity. Qed.
+
+Lemma seg_whole {A} (l : list A) y : length l <= y -> seg l 0 y = l.
+Proof. intros H. unfold seg. cbn [skipn]. apply firstn_all2. lia. Qed.
+
+Lemma seg_beyond {A} (l : list A) x y : length l <= x -> seg l x y = [].
+Proof. intros H. unfold seg. rewrite skipn_all2 by lia. apply firstn_nil. Qed.
+
+Lemma frag_cut_go_toks : forall l pos from to l',
+  frag_cut_go s l pos from to = Ok l' -> nosplit s l pos from -> nosplit s l pos to ->
+  ftoks l' = seg (ftoks l) (from - pos) (to - pos).
+Proof.
+  induction l as [|c r IH]; intros pos from to l' H Hf Ht; cbn [frag_cut_go] in H.
+  - destruct (pos <? to); [discriminate|]. inversion H; subst. unfold seg. rewrite skipn_nil, firstn_nil. reflexivity.
+  - destruct (pos <? to) eqn:Ept.
+    2:{ apply Nat.ltb_ge in Ept. inversion H; subst. symmetry. apply seg_nil. lia. }
+    apply Nat.ltb_lt in Ept. cbn [nosplit] in Hf, Ht. destruct Hf as [Hf1 Hf2], Ht as [Ht1 Ht2].
+    cbv zeta in H. cbn [Tokens.ftoks]. rewrite seg_app. pose proof (toks_length s c) as Hlc. rewrite Hlc.
+    destruct (from <? pos + nsize c) eqn:Efe.
+    + apply Nat.ltb_lt in Efe.
+      destruct ((pos <? from) || (to <? pos + nsize c)) eqn:Ecut.
+      * destruct c as [t m|ty a m cs].
+        -- destruct (text_cut t m (from - pos) (Nat.min (text_length t) (to - pos))) as [c'|] eqn:Ec; [|discriminate].
+           cbn [bind] in H. destruct (frag_cut_go s r (pos + nsize (Text t m)) from to) as [rest|] eqn:Er; [|discriminate].
+           cbn [bind] in H. inversion H; subst. cbn [Tokens.ftoks].
+           rewrite (text_cut_toks s _ _ _ _ _ Ec), (IH _ _ _ _ Er Hf2 Ht2). cbn [node_size]. f_equal. f_equal; lia.
+        -- exfalso. apply orb_prop in Ecut. destruct Ecut as [E|E]; apply Nat.ltb_lt in E.
+           ++ apply Hf1. lia.
+           ++ apply Ht1. lia.
+      * apply orb_false_elim in Ecut. destruct Ecut as [Ec1 Ec2]. apply Nat.ltb_ge in Ec1, Ec2.
+        cbn [bind] in H. destruct (frag_cut_go s r (pos + nsize c) from to) as [rest|] eqn:Er; [|discriminate].
+        cbn [bind] in H. inversion H; subst. cbn [Tokens.ftoks]. rewrite (IH _ _ _ _ Er Hf2 Ht2).
+        replace (from - pos) with 0 by lia. rewrite Nat.min_l by lia. rewrite seg_whole by lia. f_equal. f_equal; lia.
+    + apply Nat.ltb_ge in Efe. rewrite (IH _ _ _ _ H Hf2 Ht2).
+      assert (Hb : length (toks c) <= from - pos) by (rewrite Hlc; lia).
+      rewrite (seg_beyond (toks c) _ _ Hb). cbn [app]. f_equal; lia.
+Qed.
+
+Lemma frag_cut_toks l from to l' :
+  frag_cut s l from to = Ok l' -> nosplit s l 0 from -> nosplit s l 0 to ->
+  ftoks l' = seg (ftoks l) from to.
+Proof.
+  unfold frag_cut. intros H Hf Ht.
+  destruct ((from =? 0) && (to =? fsize l)) eqn:E.
+  - apply andb_prop in E. destruct E as [E1 E2]. apply Nat.eqb_eq in E1, E2. subst. inversion H; subst.
+    symmetry. apply seg_whole. rewrite ftoks_length. lia.
+  - destruct (to <=? from) eqn:El.
+    + apply Nat.leb_le in El. inversion H; subst. symmetry. apply seg_nil. exact El.
+    + rewrite (frag_cut_go_toks _ _ _ _ _ H Hf Ht). rewrite !Nat.sub_0_r. reflexivity.
+Qed.
+
+(* ---------------------------------------------------------------- the last level of a resolved position *)
+Lemma resolve_in_rest ty a m cs po start p po' :
+  resolve_in s (Elem ty a m cs) po start = Ok (p, po') ->
+  (exists i o, p = [(Elem ty a m cs, i, o)] /\ po' = po) \/
+  (exists c po2 st2 rest i o, In c cs /\ resolve_in s c po2 st2 = Ok (rest, po') /\
+     p = (Elem ty a m cs, i, o) :: rest /\ st2 + po2 = start + po).
+Proof.
+  rewrite resolve_in_unfold. destruct (po =? 0) eqn:Ez.
+  { intros H; inversion H; subst. left. eauto. }
+  apply Nat.eqb_neq in Ez. set (n := Elem ty a m cs).
+  assert (G : forall l i cur, (forall c, In c l -> In c cs) -> cur < po ->
+              rwalk s n po start l i cur = Ok (p, po') ->
+              (exists i o, p = [(n, i, o)] /\ po' = po) \/
+              (exists c po2 st2 rest i o, In c cs /\ resolve_in s c po2 st2 = Ok (rest, po') /\
+                 p = (n, i, o) :: rest /\ st2 + po2 = start + po)).
+  { induction l as [|c r IHl]; intros i cur Hin Hcur H; [discriminate|]. cbn [rwalk] in H. cbv zeta in H.
+    destruct (cur + nsize c =? po) eqn:E1; [inversion H; subst; left; eauto|]. apply Nat.eqb_neq in E1.
+    destruct (po <? cur + nsize c) eqn:E2.
+    - apply Nat.ltb_lt in E2. destruct c as [t0 m0|ty1 a1 m1 cs1]; [inversion H; subst; left; eauto|].
+      destruct (resolve_in s (Elem ty1 a1 m1 cs1) (po - cur - 1) (start + cur + 1)) as [[p1 pp1]|] eqn:E; [|discriminate].
+      cbn [bind fst snd] in H. inversion H; subst. right.
+      exists (Elem ty1 a1 m1 cs1), (po - cur - 1), (start + cur + 1), p1, i, (start + cur).
+      split; [apply Hin; left; reflexivity|]. split; [exact E|]. split; [reflexivity|lia].
+    - apply Nat.ltb_ge in E2. eapply (IHl (S i) (cur + nsize c)); eauto; [|lia]. intros c0 Hc0. apply Hin. right. exact Hc0. }
+  intros H. eapply (G cs 0 0); eauto. lia.
+Qed.
+
+Lemma resolve_in_last : forall n po start p po',
+  resolve_in s n po start = Ok (p, po') ->
+  exists nl il ol, last_entry p = Some (nl, il, ol) /\
+    before_p s [(nl, il, ol)] (start + po - ol) = firstn po' (ftoks (node_content nl)) /\
+    after_p s [(nl, il, ol)] (start + po - ol) = skipn po' (ftoks (node_content nl)).
+Proof.
+  induction n as [t m|ty a m cs IH] using node_ind2; intros po start p po' H; [discriminate|].
+  destruct (resolve_in_rest _ _ _ _ _ _ _ _ H) as [(i & o & -> & ->)|(c & po2 & st2 & rest & i & o & Hin & Hr & -> & Hg)].
+  - destruct (resolve_in_tokens s _ _ _ _ _ H) as (_ & _ & Hb & Ha).
+    exists (Elem ty a m cs), i, o. split; [reflexivity|]. unfold last_off in Hb, Ha. rewrite last_entry_single in Hb, Ha.
+    split; assumption.
+  - destruct (IH _ Hin _ _ _ _ Hr) as (nl & il & ol & Hl & Hb & Ha).
+    exists nl, il, ol. rewrite Hg in Hb, Ha. split; [|split; assumption].
+    destruct (resolve_in_spec s _ _ _ _ _ Hr) as ((i1 & o1 & rest1 & Hp1) & _ & _).
+    rewrite last_entry_cons by (rewrite Hp1; discriminate). exact Hl.
+Qed.
+
+Lemma resolve_last doc pos r :
+  resolve s doc pos = Ok r ->
+  exists nl il ol, path_at r (rp_depth r) = Some (nl, il, ol) /\
+    before_p s [(nl, il, ol)] (rp_text_offset r) = firstn (rp_parent_offset r) (ftoks (node_content nl)) /\
+    after_p s [(nl, il, ol)] (rp_text_offset r) = skipn (rp_parent_offset r) (ftoks (node_content nl)).
+Proof.
+  unfold resolve. destruct (fsize (node_content doc) <? pos); [discriminate|].
+  destruct (resolve_in s doc pos 0) as [[p po]|] eqn:E; [|discriminate]. cbn [bind fst snd]. intros H. inversion H; subst r.
+  destruct (resolve_in_last _ _ _ _ _ E) as (nl & il & ol & Hl & Hb & Ha).
+  exists nl, il, ol. unfold path_at, rp_depth, rp_text_offset, rp_last_offset, path_at, rp_depth. cbn [rp_path rp_pos rp_parent_offset].
+  unfold last_entry in Hl. rewrite Hl. cbn [Nat.add] in Hb, Ha. auto.
+Qed.
+
+Lemma resolve_tokens doc pos r :
+  resolve s doc pos = Ok r ->
+  pos <= fsize (node_content doc) /\
+  before_p s (rp_path r) (rp_text_offset r) = firstn pos (ftoks (node_content doc)) /\
+  after_p s (rp_path r) (rp_text_offset r) = skipn pos (ftoks (node_content doc)).
+Proof.
+  unfold resolve. destruct (fsize (node_content doc) <? pos); [discriminate|].
+  destruct (resolve_in s doc pos 0) as [[p po]|] eqn:E; [|discriminate]. cbn [bind fst snd]. intros H. inversion H; subst r.
+  destruct (resolve_in_tokens s _ _ _ _ _ E) as (Hle & _ & Hb & Ha).
+  unfold rp_text_offset, rp_last_offset, path_at, rp_depth. cbn [rp_path rp_pos].
+  unfold last_off, last_entry in Hb, Ha. cbn [Nat.add] in Hb, Ha. auto.
+Qed.
+
+(* ---------------------------------------------------------------- replace_outer *)
+Lemma replace_outer_copy fuel from to sl depth r :
+  replace_outer s fuel from to sl depth = Ok r ->
+  exists n X, rp_node from depth = Ok n /\ r = node_copy n X.
+Proof.
+  destruct fuel as [|fuel]; [discriminate|]. cbn [replace_outer].
+  destruct (rp_index from depth) as [index|]; [|discriminate]. cbn [bind].
+  destruct (rp_node from depth) as [n|] eqn:En; [|discriminate]. cbn [bind].
+  destruct (rp_index to depth) as [tindex|]; [|discriminate]. cbn [bind].
+  intros H. exists n.
+  destruct ((index =? tindex) && (depth <? rp_depth from - sl_open_start sl)).
+  { destruct (replace_outer s fuel from to sl (S depth)); [|discriminate]. cbn [bind] in H. inversion H; subst. eauto. }
+  destruct (fsize (sl_content sl) =? 0).
+  { destruct (replace_two_way s (S (rp_depth from)) from to depth); [|discriminate]. cbn [bind] in H.
+    apply close_copy in H. eauto. }
+  destruct ((sl_open_start sl =? 0) && (sl_open_end sl =? 0) && (rp_depth from =? depth) && (rp_depth to =? depth)) eqn:Ec.
+  { apply andb_prop in Ec. destruct Ec as [Ec _]. apply andb_prop in Ec. destruct Ec as [_ Ed]. apply Nat.eqb_eq in Ed.
+    unfold rp_parent in H. rewrite Ed, En in H. cbn [bind] in H.
+    destruct (frag_cut s (node_content n) 0 (rp_parent_offset from)); [|discriminate]. cbn [bind] in H.
+    destruct (frag_cut s (node_content n) (rp_parent_offset to) (fsize (node_content n))); [|discriminate]. cbn [bind] in H.
+    apply close_copy in H. eauto. }
+  destruct (prepare_slice s sl from) as [[st en]|]; [|discriminate]. cbn [bind] in H.
+  destruct (replace_three_way s (S (rp_depth from + rp_depth to + rp_depth st)) from st en to depth); [|discriminate].
+  cbn [bind] in H. apply close_copy in H. eauto.
+Qed.
+
+Definition LastTok (r : rpos) : Prop :=
+  exists nl il ol, path_at r (rp_depth r) = Some (nl, il, ol) /\
+    before_p s [(nl, il, ol)] (rp_text_offset r) = firstn (rp_parent_offset r) (ftoks (node_content nl)) /\
+    after_p s [(nl, il, ol)] (rp_text_offset r) = skipn (rp_parent_offset r) (ftoks (node_content nl)).
+
+(* what the splice theorem needs of the two positions prepare_slice resolves inside the wrapped slice *)
+Definition PrepFits (from to : rpos) (sl : slice) (st en : rpos) : Prop :=
+  rp_depth st = rp_depth from /\ rp_depth en = rp_depth to /\
+  rp_text_offset st = 0 /\ rp_text_offset en = 0 /\
+  PathShape s en /\ linked (rp_path st) /\ linked (rp_path en) /\
+  forall d, d <= rp_depth from - sl_open_start sl ->
+    SameNode st en d /\
+    nt (between (skipn d (rp_path st)) (skipn d (rp_path en))) = nt (inner_toks s sl).
+
+Lemma node_copy_content n X : is_elem n -> node_content (node_copy n X) = X.
+Proof. intros (ty & a & m & cs & ->). reflexivity. Qed.
+
+Lemma inner_toks_closed sl : sl_open_start sl = 0 -> sl_open_end sl = 0 -> inner_toks s sl = ftoks (sl_content sl).
+Proof. intros H0 H1. unfold inner_toks. rewrite H0, H1, !Nat.sub_0_r. cbn [skipn]. apply firstn_all. Qed.
+
+Lemma inner_toks_empty sl : fsize (sl_content sl) = 0 -> inner_toks s sl = [].
+Proof.
+  intros H. unfold inner_toks. pose proof (ftoks_length s (sl_content sl)) as Hl. rewrite H in Hl.
+  destruct (ftoks (sl_content sl)); [|discriminate]. rewrite skipn_nil, firstn_nil. reflexivity.
+Qed.
+
+Lemma replace_outer_toks : forall fuel from to sl depth r,
+  replace_outer s fuel from to sl depth = Ok r ->
+  TextAt from -> TextAt to -> PathShape s from -> linked (rp_path from) -> linked (rp_path to) ->
+  SameNode from to depth -> LastTok from -> LastTok to -> NoSplitP s from -> NoSplitP s to ->
+  depth <= rp_depth from - sl_open_start sl ->
+  (fsize (sl_content sl) = 0 -> rp_depth from = rp_depth to) ->
+  (forall st en, prepare_slice s sl from = Ok (st, en) -> PrepFits from to sl st en) ->
+  nt (ftoks (node_content r)) =
+  nt (before_p s (skipn depth (rp_path from)) (rp_text_offset from)) ++ nt (inner_toks s sl) ++
+  nt (after_p s (skipn depth (rp_path to)) (rp_text_offset to)).
+Proof.
+  induction fuel as [|fuel IH]; intros from to sl depth r H Htf Htt Hsh Hlf Hlt Hsame Hlastf Hlastt Hnf Hnt Hdepth Hempty Hprep;
+    [discriminate|].
+  cbn [replace_outer] in H.
+  destruct (rp_index from depth) as [index|] eqn:Ei; [|discriminate]. cbn [bind] in H.
+  destruct (rp_node from depth) as [n|] eqn:En; [|discriminate]. cbn [bind] in H.
+  destruct (rp_index to depth) as [tindex|] eqn:Eti; [|discriminate]. cbn [bind] in H.
+  destruct (rp_index_path _ _ _ Ei) as (n0 & o0 & Hpf).
+  assert (n0 = n) by (unfold rp_node in En; rewrite Hpf in En; inversion En; auto). subst n0.
+  destruct Hsame as (n1 & Hn1 & Hn2). assert (n1 = n) by congruence. subst n1.
+  destruct (rp_index_path _ _ _ Eti) as (n3 & o3 & Hpt).
+  assert (n3 = n) by (unfold rp_node in Hn2; rewrite Hpt in Hn2; inversion Hn2; auto). subst n3.
+  destruct (Hsh _ _ En) as (Heln & _).
+  destruct ((index =? tindex) && (depth <? rp_depth from - sl_open_start sl)) eqn:Edesc.
+  { destruct (replace_outer s fuel from to sl (S depth)) as [inner|] eqn:Einner; [|discriminate]. cbn [bind] in H.
+    inversion H; subst r. clear H.
+    apply andb_prop in Edesc. destruct Edesc as [Eidx Elt]. apply Nat.eqb_eq in Eidx. subst tindex. apply Nat.ltb_lt in Elt.
+    destruct (replace_outer_copy _ _ _ _ _ _ Einner) as (n' & X & En' & ->).
+    destruct (replace_outer_markup s _ _ _ _ _ _ Einner) as (_ & (ti' & Eti')).
+    destruct (rp_node_path _ _ _ En') as (i1 & o1 & Hpf1).
+    destruct (rp_index_path _ _ _ Eti') as (n2 & o2 & Hpt1).
+    assert (Hchild : child_at n index = Some n') by (eapply Hlf; eauto).
+    assert (Hchild2 : child_at n index = Some n2) by (eapply Hlt; eauto).
+    assert (n2 = n') by congruence. subst n2.
+    destruct (Hsh _ _ En') as (Hel' & Hnl'). specialize (Hnl' (Nat.lt_0_succ depth)).
+    assert (Hsame' : SameNode from to (S depth)).
+    { exists n'. split; [exact En'|]. unfold rp_node. rewrite Hpt1. reflexivity. }
+    specialize (IH _ _ _ _ _ Einner Htf Htt Hsh Hlf Hlt Hsame' Hlastf Hlastt Hnf Hnt ltac:(lia) Hempty Hprep).
+    rewrite (node_copy_content _ _ Hel') in IH.
+    rewrite (node_copy_content _ _ Heln). unfold replace_child. rewrite !ftoks_app. cbn [Tokens.ftoks]. rewrite app_nil_r.
+    assert (Htk : toks (node_copy n' X) = open_tok n' :: ftoks X ++ [TClose]).
+    { destruct Hel' as (ty & a & m & cs & ->). cbn [node_copy open_tok]. rewrite toks_elem.
+      unfold nonleaf in Hnl'. cbn [node_ty] in Hnl'. rewrite Hnl'. reflexivity. }
+    rewrite Htk, (before_p_inner _ _ _ _ _ _ _ _ _ Hpf Hpf1), (after_p_inner _ _ _ _ _ _ _ Hpt Hpt1).
+    unfold nt in *. rewrite ?map_app. cbn [List.map]. rewrite ?map_app. cbn [List.map]. rewrite IH. lnorm. reflexivity. }
+  destruct (fsize (sl_content sl) =? 0) eqn:Esz.
+  { apply Nat.eqb_eq in Esz.
+    destruct (replace_two_way s (S (rp_depth from)) from to depth) as [c|] eqn:E2; [|discriminate]. cbn [bind] in H.
+    apply close_copy in H. subst r. rewrite (node_copy_content _ _ Heln).
+    rewrite (two_way_toks _ _ _ _ _ E2 (Hempty Esz) Htf Htt Hsh), (inner_toks_empty _ Esz). reflexivity. }
+  destruct ((sl_open_start sl =? 0) && (sl_open_end sl =? 0) && (rp_depth from =? depth) && (rp_depth to =? depth)) eqn:Ec.
+  { apply andb_prop in Ec. destruct Ec as [Ec Edt]. apply andb_prop in Ec. destruct Ec as [Ec Edf].
+    apply andb_prop in Ec. destruct Ec as [Eos Eoe]. apply Nat.eqb_eq in Edt, Edf, Eos, Eoe.
+    destruct Hnf as (pf & Epf & Hnsf). destruct Hnt as (pt & Ept & Hnst).
+    unfold rp_parent in *. rewrite Edf, En in Epf. inversion Epf; subst pf.
+    rewrite Edt, Hn2 in Ept. inversion Ept; subst pt.
+    rewrite Edf, En in H. cbn [bind] in H.
+    destruct (frag_cut s (node_content n) 0 (rp_parent_offset from)) as [a|] eqn:Ea; [|discriminate]. cbn [bind] in H.
+    destruct (frag_cut s (node_content n) (rp_parent_offset to) (fsize (node_content n))) as [b|] eqn:Eb; [|discriminate].
+    cbn [bind] in H. apply close_copy in H. subst r. rewrite (node_copy_content _ _ Heln).
+    rewrite !frag_append_toks.
+    assert (Ha : ftoks a = firstn (rp_parent_offset from) (ftoks (node_content n))).
+    { rewrite (frag_cut_toks _ _ _ _ Ea); [|apply nosplit_before; lia|exact Hnsf]. unfold seg. rewrite Nat.sub_0_r. reflexivity. }
+    assert (Hb : ftoks b = skipn (rp_parent_offset to) (ftoks (node_content n))).
+    { rewrite (frag_cut_toks _ _ _ _ Eb); [|exact Hnst|apply nosplit_after; lia]. unfold seg.
+      rewrite <- (ftoks_length s (node_content n)). apply firstn_skipn_all. }
+    destruct Hlastf as (nl & il & ol & Hpl & Hbl & _). rewrite Edf, Hpf in Hpl. inversion Hpl; subst nl il ol.
+    destruct Hlastt as (nl & il & ol & Hpl2 & _ & Hal). rewrite Edt, Hpt in Hpl2. inversion Hpl2; subst nl il ol.
+    rewrite (skipn_path _ _ _ Hpf), (skipn_S_nil from depth) by lia.
+    rewrite (skipn_path _ _ _ Hpt), (skipn_S_nil to depth) by lia.
+    rewrite Hbl, Hal, Ha, Hb, (inner_toks_closed _ Eos Eoe). rewrite app_assoc. reflexivity. }
+  destruct (prepare_slice s sl from) as [[st en]|] eqn:Eprep; [|discriminate]. cbn [bind] in H.
+  destruct (replace_three_way s (S (rp_depth from + rp_depth to + rp_depth st)) from st en to depth) as [c|] eqn:E3;
+    [|discriminate]. cbn [bind] in H.
+  apply close_copy in H. subst r. rewrite (node_copy_content _ _ Heln).
+  destruct (Hprep _ _ eq_refl) as (Hds & Hde & Hzs & Hze & Hshe & Hls & Hle & Hall).
+  destruct (Hall depth Hdepth) as (Hsn & Hbt).
+  rewrite (three_way_toks _ _ _ _ _ _ _ E3 Hds Hde Hzs Hze Htf Htt Hsh Hshe Hls Hle Hsn), Hbt. reflexivity.
+Qed.
+
+(* ---------------------------------------------------------------- Node.replace *)
+Lemma resolve_LastTok doc pos r : resolve s doc pos = Ok r -> LastTok r.
+Proof. intros H. exact (resolve_last _ _ _ H). Qed.
+
+Theorem node_replace_toks_gen doc from to sl d' :
+  node_replace s doc from to sl = Ok d' ->
+  (fsize (sl_content sl) = 0 -> sl_open_start sl = sl_open_end sl) ->
+  (forall rf rt st en, resolve s doc from = Ok rf -> resolve s doc to = Ok rt ->
+     sl_open_start sl <= rp_depth rf -> rp_depth rt = rp_depth rf - sl_open_start sl + sl_open_end sl ->
+     prepare_slice s sl rf = Ok (st, en) -> PrepFits rf rt sl st en) ->
+  exists X, d' = node_copy doc X /\
+    nt (ftoks X) = nt (firstn from (ftoks (node_content doc))) ++ nt (inner_toks s sl) ++
+                   nt (skipn to (ftoks (node_content doc))).
+Proof.
+  intros H Hempty Hprep. unfold node_replace in H.
+  destruct (resolve s doc from) as [rf|] eqn:Ef; [|discriminate]. cbn [bind] in H.
+  destruct (resolve s doc to) as [rt|] eqn:Et; [|discriminate]. cbn [bind] in H.
+  unfold replace_rp in H. destruct (rp_depth rf <? sl_open_start sl) eqn:E1; [discriminate|].
+  apply Nat.ltb_ge in E1.
+  destruct (negb _) eqn:E2; [discriminate|]. apply negb_false_iff in E2. apply Z.eqb_eq in E2.
+  destruct (resolve_spec s _ _ _ Ef) as (_ & Hlf & Htf & (i1 & o1 & r1 & Hh1) & Hnf).
+  destruct (resolve_spec s _ _ _ Et) as (_ & Hlt & Htt & (i2 & o2 & r2 & Hh2) & Hnt).
+  destruct (resolve_tokens _ _ _ Ef) as (_ & Hbf & _). destruct (resolve_tokens _ _ _ Et) as (_ & _ & Hat).
+  destruct (replace_outer_copy _ _ _ _ _ _ H) as (n & X & Hn & ->).
+  assert (n = doc) by (unfold rp_node, path_at in Hn; rewrite Hh1 in Hn; cbn in Hn; inversion Hn; auto). subst n.
+  exists X. split; [reflexivity|].
+  pose proof (resolve_PathShape s _ _ _ Ef) as Hsh. destruct (Hsh _ _ Hn) as (Hel & _).
+  pose proof (replace_outer_toks _ _ _ _ _ _ H Htf Htt Hsh Hlf Hlt) as Ho.
+  rewrite (node_copy_content _ _ Hel) in Ho. cbn [skipn] in Ho. rewrite Hbf, Hat in Ho. apply Ho.
+  - exists doc. split; [exact Hn|]. unfold rp_node, path_at. rewrite Hh2. reflexivity.
+  - eapply resolve_LastTok; eauto.
+  - eapply resolve_LastTok; eauto.
+  - exact Hnf.
+  - exact Hnt.
+  - lia.
+  - intros Hz. specialize (Hempty Hz). lia.
+  - intros st en Hp. eapply Hprep; eauto. lia.
+Qed.
+
 End WithSchema.
